@@ -116,10 +116,29 @@ SPEC["C08"] = {
             "parentheses, readonly, comments and JSDoc, interface<->alias, extends<->intersection, nested literal unions; evaluations = parsers compared (verdict vector over the shared pool + hash256). "
             "distinct_nontrivial = distinct (applied rewrite set, parser shapes) combinations",
     "floor": {"quick": 2000, "thorough": 50000},
+    "workload_exclusions": ["cyclic input values are not in the shared pool: whether a cyclic value overflows the stack depends on member order (known finding C03-cyclic-input)"],
 }
 CLAIMS["C08"] = {
     "technique": "metamorphic runtime monitor: two spellings of one program compiled by the real compiler, validators compared on a shared value pool and by hash256; failing rewrite sequences minimised by re-execution",
     "text": "For every generated program, compositions of catalogued meaning-preserving rewrites are applied to the source AST; original and rewritten program are compiled and every parser pair must give the same "
             "validate() verdict on every pool value and, for the naming/ordering/comment rewrites, the same hash256(). Held = no difference outside recorded known findings.",
     "note": "The rewrite catalog (js/gen/rewrite.mjs) is the trusted part: each rewrite yields the identical TypeScript type. No membership oracle is involved. Strict mode is not compared (C11's known finding depends on alias boundaries).",
+}
+
+# ------------------------------------------------------------------------------------------ C13
+SPEC["C13"] = {
+    "engine": "node",
+    "post": "post_c13",
+    "rule": "cases = (a) every Hash256Writer stream of the run (all parsers of the corpus, twins and rewrites) re-hashed with node:crypto, plus the writer driven through its update* methods for EVERY total length 0..320 "
+            "with three random chunkings each; (b) parsers compared before/after naming/ordering/comment rewrites (hash256 and hash); (c) digests bucketed with verdict vectors over a common pool, and near-miss twins "
+            "(one semantic edit: optionality, rest element, literal, primitive, format chain, index key, array->tuple) that are distinguishable on the pool; (d) hash256()/hash() on every recursive parser. "
+            "distinct_nontrivial = distinct shared digest buckets + distinct distinguishable near-miss shapes",
+    "floor": {"quick": 5000, "thorough": 100000},
+    "exhaustive_subruns": ["SHA-256 message lengths 0..320 bytes (every padding / block-boundary residue), each with 3 chunkings, per shard"],
+}
+CLAIMS["C13"] = {
+    "technique": "online stream monitor on Hash256Writer (prototype wrapper) against node:crypto SHA-256 + metamorphic digest comparison under rewrites + behaviour=>digest bucket monitor with near-miss twins",
+    "text": "Every byte handed to every Hash256Writer during the run is recorded by a wrapper installed from outside and the digest compared with node:crypto over the same bytes (exhaustive over message lengths 0..320); "
+            "hash256/hash of each parser is compared before and after meaning-preserving renamings/reorderings/comments; validators sharing a digest must share their verdict vector, and one-edit twins that the pool distinguishes must get different digests.",
+    "note": "behaviour=>digest is only as strong as the common pool / generated twins; SHA-256 equality is exact. Known findings record where alias boundaries change the emitted structure and hence the digest.",
 }
